@@ -589,6 +589,8 @@ def _icc_to_dict(field_data):
 
         field_length_raw = field_data[field_pointer:field_pointer+1]
         LOGGER.debug(f"{field_length_raw=}")
+        if len(field_length_raw) != 1:
+            raise Iso8583DataError('ICC data ends after a tag - no length byte', binary_context_data=field_data)
         field_length = struct.unpack(">B", field_length_raw)[0]
 
         LOGGER.debug("%s", format(field_tag_display))
